@@ -1478,7 +1478,14 @@ func boundsShape(p *Prog, fn *ssa.Function, node ast.Expr) (string, bool) {
 			default:
 				continue
 			}
-			return d + " if " + strings.Join(guardSet(in), " && "), true
+			// only the conditions that can bear on an index: lengths, emptiness, element tests
+			var gs []string
+			for _, g := range guardSet(in) {
+				if strings.Contains(g, "len(") || strings.Contains(g, `"" `) || strings.Contains(g, "[]") || strings.Contains(g, "ok(") {
+					gs = append(gs, g)
+				}
+			}
+			return d + " if " + strings.Join(gs, " && "), true
 		}
 	}
 	return "", false
@@ -1591,7 +1598,11 @@ func descOperand(v ssa.Value) string {
 	}
 	var l []string
 	for _, st := range cellStores(cell) {
-		l = append(l, descValue(st.Val, 2)+" when ["+strings.Join(guardSet(st), " && ")+"]")
+		var gs []string
+		for _, g := range guardSet(st) {
+			gs = append(gs, g) // a store that became conditional is what matters here: all conditions
+		}
+		l = append(l, descValue(st.Val, 2)+" when ["+strings.Join(gs, " && ")+"]")
 	}
 	sort.Strings(l)
 	l = uniqStrings(l)
